@@ -58,6 +58,7 @@ def check(rep: Report, ctx: Ctx) -> None:
     r718(rep, ctx)
     r719(rep, ctx)
     r720(rep, ctx)
+    r721(rep, ctx)
 
 
 def r71(rep: Report, ctx: Ctx, det: FuncInfo) -> None:
@@ -1491,3 +1492,107 @@ def r720(rep: Report, ctx: Ctx) -> None:
     rep.rule("R7.20", "the overlap map groups the successors that occur "
              "together in some successor set, for every event", 9)
     overlap_map(rep, ctx, "R7.20")
+
+
+def _nbr_forms(kind: str) -> list[str]:
+    """Accepted spellings of the five neighbourhood helpers (edge-list form
+    as in the pinned tree, nested-loop form, set-difference form)."""
+    S = "P:nodes_to_check"
+    out = []
+    for nodes_each in (False, True):
+        src = "each(P:nodes)" if nodes_each else "P:nodes"
+        pred = f"each(P:graph.predecessors({src}))"
+        succ = f"each(P:graph.successors({src}))"
+        tail = "each(P:nodes)" if nodes_each else \
+            "each(P:graph.out_edges(P:nodes))[0]"
+        head = "each(P:nodes)" if nodes_each else \
+            "each(P:graph.in_edges(P:nodes))[1]"
+        if kind == "in_not":
+            out += [f"{{{pred} for.. if ({pred} NotIn {S})}}",
+                    f"({{{pred} for..}} Sub {S})",
+                    f"({{{pred} for..}} Sub set({S}))"]
+        elif kind == "out_not":
+            out += [f"{{{succ} for.. if ({succ} NotIn {S})}}",
+                    f"({{{succ} for..}} Sub {S})",
+                    f"({{{succ} for..}} Sub set({S}))"]
+        elif kind == "tail_in":
+            out += [f"{{{tail} for.. if ({succ} In {S})}}"]
+        elif kind == "tail_not":
+            out += [f"{{{tail} for.. if ({succ} NotIn {S})}}"]
+        elif kind == "head_not":
+            out += [f"{{{head} for.. if ({pred} NotIn {S})}}"]
+    if kind == "tail_in":
+        out.append("{each(P:nodes) for.. if any(((each(P:graph.successors("
+                   f"each(P:nodes))) In {S}) for..))}}")
+    if kind == "tail_not":
+        out.append("{each(P:nodes) for.. if any(((each(P:graph.successors("
+                   f"each(P:nodes))) NotIn {S}) for..))}}")
+    if kind == "head_not":
+        out.append("{each(P:nodes) for.. if any(((each(P:graph.predecessors("
+                   f"each(P:nodes))) NotIn {S}) for..))}}")
+    return out
+
+
+def graph_helpers(rep: Report, ctx: Ctx, rule: str) -> None:
+    from .effspec import effects, expect, nx_norm
+
+    def norm(s: str) -> str:
+        return nx_norm(s).replace("nx.has_path(", "has_path(")
+    spec = [
+        ("get_innodes_not_in_set", "in_not",
+         "the PREDECESSORS of the given nodes that lie outside the set"),
+        ("get_outnodes_not_in_set", "out_not",
+         "the SUCCESSORS of the given nodes that lie outside the set"),
+        ("get_nodes_with_outedges_in_set", "tail_in",
+         "those of the given nodes that have a successor INSIDE the set"),
+        ("get_nodes_with_outedges_not_in_set", "tail_not",
+         "those of the given nodes that have a successor OUTSIDE the set"),
+        ("get_nodes_with_inedge_not_in_set", "head_not",
+         "those of the given nodes that have a predecessor OUTSIDE the set"),
+    ]
+    for fn, kind, what in spec:
+        fi = ctx.func(fn)
+        effs = [e for e in effects(ctx, fi, norm=norm) if e.kind == "ret"]
+        forms = _nbr_forms(kind)
+        hit = [e for e in effs if len(e.args) == 1 and e.args[0] in forms
+               and not e.guards]
+        rep.ob(rule, f"{fn} returns {what}", len(effs) == 1 and len(hit) == 1,
+               fi=fi, node=effs[0].node if effs else fi.node,
+               detail=f"returns {[e.args for e in effs]}; accepted: "
+                      f"{forms[0]} (or its nested-loop / set-difference / "
+                      "any() spelling) -- loop start, end, break and exit "
+                      "points are computed from these sets: a crossed "
+                      "direction or membership test mis-classifies them")
+    # path helpers
+    fi = ctx.func("has_path_back_to_chosen_nodes")
+    effs = [e for e in effects(ctx, fi, norm=norm) if e.kind == "ret"]
+    HP = "has_path(P:graph,first(P:nodes_to_find_path_from),P:node)"
+    ANY = "any((has_path(P:graph,each(P:nodes_to_find_path_from),P:node) " \
+          "for..))"
+    one = len(effs) == 1 and effs[0].args == (ANY,) and not effs[0].guards
+    two = len(effs) == 2 and any(
+        e.args == ("True",) and e.guards == [("truth", HP, "1")]
+        for e in effs) and any(e.args == ("False",) and not e.guards
+                               for e in effs)
+    rep.ob(rule, "has_path_back_to_chosen_nodes: true exactly when SOME "
+           "chosen node reaches the node (path FROM the chosen node TO the "
+           "node)", one or two, fi=fi, node=fi.node,
+           detail=f"returns {[(e.args, e.guards) for e in effs]}")
+    fi = ctx.func("identify_nodes_without_path_back_to_chosen_nodes")
+    effs = effects(ctx, fi, norm=norm)
+    expect(rep, rule, fi, effs, "identify_nodes_without_path_back_to_chosen_"
+           "nodes yields every node that NO chosen node reaches, and only "
+           "those", kind="yield", name="", args=("each(P:nodes)",),
+           must=[("truth", "has_path_back_to_chosen_nodes(each(P:nodes),"
+                  "P:nodes_to_find_path_from,P:graph)", "0")])
+
+
+def r721(rep: Report, ctx: Ctx) -> None:
+    """The classification of loop components and the carving of the body
+    are written in terms of five neighbourhood helpers and two reachability
+    helpers of utils.py; the tables of R7.12-R7.16 pin which helper is
+    called with which sets, this rule pins what each helper computes."""
+    rep.rule("R7.21", "the neighbourhood / reachability helpers of loop "
+             "extraction compute what their callers assume (direction of "
+             "the edge, side of the membership test)", 7)
+    graph_helpers(rep, ctx, "R7.21")
